@@ -1,3 +1,4 @@
+import BalmProofs.JudgeExact
 import BalmProofs.JudgeSpec
 import Balm.Impl.Diagram
 import Balm.Impl.Block
